@@ -522,6 +522,24 @@ func measure(r *Result, sc *scenario) (nontrivial map[string]bool) {
 	r.Inc("witnesses_into_decided_unprocessed_rounds", sc.d.witnessIntoWaitingDecided)
 	r.Inc("guided_late_witness_attempts", sc.d.guidedLateWitnesses)
 	r.Inc("empty_frames", empty)
+	// other-parents far behind in rounds and ahead in Lamport time (a validator that talked to itself)
+	for _, g := range sc.d.events {
+		e, err := ref.store.GetEvent(g.ev.Hex())
+		if err != nil || e.SelfParent() == "" || e.OtherParent() == "" {
+			continue
+		}
+		sp, err1 := ref.store.GetEvent(e.SelfParent())
+		op, err2 := ref.store.GetEvent(e.OtherParent())
+		if err1 != nil || err2 != nil || sp.VerifRound() == nil || op.VerifRound() == nil || sp.VerifLamport() == nil || op.VerifLamport() == nil {
+			continue
+		}
+		if *op.VerifRound() <= *sp.VerifRound()-2 {
+			r.Inc("events_with_other_parent_two_rounds_behind", 1)
+			if *op.VerifLamport() >= *sp.VerifLamport() {
+				r.Inc("events_with_other_parent_two_rounds_behind_and_ahead_in_lamport_time", 1)
+			}
+		}
+	}
 	r.Inc("events", len(sc.d.events))
 	r.Inc("blocks_ref", len(ref.blocks))
 	r.Inc("nodes", len(sc.nodes))
@@ -630,6 +648,10 @@ func runHGWith(r *Result, thorough bool, prop string, rng *rand.Rand) {
 	for i := 0; i < cases; i++ {
 		dynamic := (prop == "C01" || prop == "C02" || prop == "C04") && i%3 == 2
 		o := randomOpts(rng, thorough, dynamic)
+		if prop != "C18" && !dynamic && i%6 == 1 {
+			o = hermitOpts(rng, thorough)
+			r.Inc("hermit_scenarios", 1)
+		}
 		if prop == "C18" && len(o.byz) == 0 {
 			o.n0 = 4 + rng.Intn(4)
 			o.byz = []int{rng.Intn(o.n0)}
